@@ -478,6 +478,8 @@ func (fr *frame) load(p *Val, ty types.Type, st *State, at ssa.Instruction, chec
 	return v
 }
 
+var sentinelErrors = map[string]bool{"G:io.EOF": true, "G:io.ErrUnexpectedEOF": true}
+
 func (fr *frame) loadLoc(l *Loc, st *State, at ssa.Instruction) *Val {
 	h := st.heap
 	switch l.Kind {
@@ -486,6 +488,10 @@ func (fr *frame) loadLoc(l *Loc, st *State, at ssa.Instruction) *Val {
 	case LElem:
 		return &Val{T: Select(Select(h.get(l.Key), l.Ref), l.Idx), Ty: l.Ty}
 	case LGlobal:
+		if sentinelErrors[l.Key] {
+			// library sentinel errors are non-nil error values (assumed; they are never reassigned)
+			fr.vc.assume(True, Not(Eq(IfTag(h.get(l.Key)), IntLit(0))))
+		}
 		return &Val{T: h.get(l.Key), Ty: l.Ty}
 	case LStruct:
 		v := &Val{Ty: l.Ty}
